@@ -218,9 +218,6 @@ def max_spread_z3(shares, allowed):
             if r != z3.unsat:
                 raise RuntimeError("z3 returned %r in placement oracle" % (r,))
             break
-        if h == 0:
-            # h + 1 = 1 infeasible although every share has a candidate: impossible unless there are no shares
-            h = 0
         _PCACHE[key] = h
         return h
 
